@@ -55,6 +55,11 @@ PROP = {'drive': ['Dsl'],
              'goroutine clause: C19_confluent/C19_terminates/C19_no_leak are about the process model; that the Go '
              'runtime implements unbuffered channels as the model says is trusted; the real code is observed by '
              'goroutine profiles after Parse under GOMAXPROCS 1, 2, 4, 16 (dsl.goroutines)',
+             'meaning of chained rules: stream dsl.meaning (D) writes one GSUB6/GPOS8 rule with two or three different '
+             'backtrack entries (and lookahead entries as control) in each of the three formats, with its own writer, and '
+             'checks on the real Parse result that the backtrack is stored closest-to-the-input first and the lookahead '
+             'in reading order; the expectation is computed from the entries as listed in the case line, not from any '
+             'parse (a parser and a printer that both drop the reversal still round-trip)',
              '"parsing means what the documented syntax says": glyph names, strings via the cmap, ranges and '
              'escapes are in the parser model and compared output-exactly with the code; there is no separate '
              'written specification of the syntax to compare with'],
